@@ -226,8 +226,9 @@ class Analyzer:
                 out = [out]
             iprobs = probabilities[i, :]
             error = 1
-            # Loop over expected outputs and subtract from error value
-            for o in out:
+            # Loop over expected outputs and subtract from error value, an
+            # output which is listed more than once is only counted once
+            for o in dict.fromkeys(out):
                 if o in outputs:
                     loc = outputs.index(o)
                     error -= iprobs[loc] / sum(iprobs)
